@@ -29,7 +29,10 @@ def iter_view(eng, st, v: Val, origin: str) -> IterV:
         def elem(i):
             k = pyops._const_int(V(INT, i))
             if k is None:
-                raise GenerationError("symbolic index into python-level sequence")
+                sq = pyops.listv_to_seq(eng, v) if isinstance(v, ListV) else None
+                if sq is None:
+                    raise GenerationError("symbolic index into python-level sequence")
+                return wrap(eng, sq.ty.elem, smt.At(sq.t, i))
             return items[k]
 
         return IterV(IntVal(len(items)), elem, concrete=len(items))
@@ -190,6 +193,7 @@ def b_set(eng, st, node, args, kwargs):
         return v
     if isinstance(v, V) and isinstance(v.ty, TJson):
         ok = d.fun("json_iterable", [v.t.sort], smt.BOOL)(v.t)
+        eng.ensure_axioms("json_set")
         eng.may_raise(st, ok, "TypeError", eng.origin(node))
         return V(JSON, d.fun("json_set", [v.t.sort], v.t.sort)(v.t))
     if isinstance(v, V) and isinstance(v.ty, TSeq):
